@@ -415,6 +415,14 @@ def run(tier):
     rep.traces = rep.transitions
     rep.evaluations = rep.transitions
     rep.outcomes = set(range(outcomes))
+    # end-to-end Betdaq leg: real BetdaqExecution / polling against an API double, every interleaving of the scripts'
+    # requests, replies, exchange-side fills and polls; at every stable point the reported exposure is compared with
+    # the worst case over the exchange's own records
+    from props import betdaqlife
+
+    betdaqlife.explore_betdaq(rep, {"C16"}, tier)
+    rep.engine = "E3 gridx + E2 livex (Betdaq leg)"
+    rep.need("betdaq_exposure_points")
     rep.rule = (
         "every multiset of <= %d orders per selection from %d real-order templates (side x {classic,finest,line,LOC,MOC} x "
         "matched split x status), in live (CurrentOrder) and simulated representation; each order in turn as exclusion, 9 "
@@ -431,6 +439,10 @@ def run(tier):
 
 
 def replay(rep):
+    if "betdaq" in rep["case"]:
+        from props import betdaqlife
+
+        return betdaqlife.replay_betdaq(rep["case"], {"C16"})
     case = rep["case"]
     mode = case["mode"]
     T = templates()
